@@ -552,7 +552,9 @@ impl Connection {
                 || self.spaces[space_id].ping_pending
                 || self.spaces[space_id].immediate_ack_pending;
             if space_id == SpaceId::Data {
-                ack_eliciting |= self.can_send_1rtt(frame_space_1rtt);
+                // Every packet sent on an unvalidated path carries a PATH_CHALLENGE
+                ack_eliciting |=
+                    self.can_send_1rtt(frame_space_1rtt) || self.path.challenge.is_some();
             }
 
             // Only datagrams carrying ack-eliciting (application) data are padded. A padded
